@@ -107,6 +107,13 @@ func definiteOrigin(p *Prog, o *Origin) bool {
 		if g, ok := x.X.(*ssa.Global); ok && x.Op == token.MUL {
 			return g.Pkg != nil && !isRepoPath(g.Pkg.Pkg.Path())
 		}
+		// a field of a standard-library / dependency struct (request.RequestURI, url.Path …): which field is read does
+		// not depend on code unknown to the baseline
+		if fa, ok := x.X.(*ssa.FieldAddr); ok && x.Op == token.MUL {
+			if n, _ := structOf(fa.X.Type()); n != nil && n.Obj() != nil && n.Obj().Pkg() != nil {
+				return !isRepoPath(n.Obj().Pkg().Path())
+			}
+		}
 		return false
 	case *ssa.Parameter:
 		f := x.Parent()
@@ -280,6 +287,42 @@ func main() {
 		fmt.Println("\nvar globalInventory = map[string]bool{")
 		for _, ln := range prog.globalLines() {
 			fmt.Println(ln)
+		}
+		fmt.Println("}")
+		// straight-line library functions the library itself never calls (accessors offered to API users): a call to one
+		// of them that appears in library code later is looked through like a call to a new helper
+		fmt.Println("\nvar uncalledInventory = map[string]bool{")
+		{
+			called := map[*ssa.Function]bool{}
+			for _, f := range prog.LibFuncs() {
+				for _, b := range f.Blocks {
+					for _, in := range b.Instrs {
+						if ci, ok := in.(ssa.CallInstruction); ok {
+							if sc := ci.Common().StaticCallee(); sc != nil {
+								called[sc] = true
+							}
+						}
+						for _, op := range in.Operands(nil) {
+							if op != nil && *op != nil {
+								if g, ok := (*op).(*ssa.Function); ok {
+									called[g] = true // used as a value: may be called anywhere
+								}
+							}
+						}
+					}
+				}
+			}
+			var ul []string
+			for _, f := range prog.LibFuncs() {
+				if f.Parent() != nil || f.Synthetic != "" || called[f] || len(f.Blocks) != 1 {
+					continue
+				}
+				ul = append(ul, fmt.Sprintf("\t%q: true,", short(f.String())))
+			}
+			sort.Strings(ul)
+			for _, ln := range ul {
+				fmt.Println(ln)
+			}
 		}
 		fmt.Println("}")
 		// the fields of the library's struct types (name and type), so that a renamed unexported field is still recognised
